@@ -92,6 +92,20 @@ def isSpace (c : Char) : Bool :=
 def trimSpace (s : String) : String :=
   String.ofList ((s.toList.dropWhile isSpace).reverse.dropWhile isSpace).reverse
 
+/-- `x[lo:hi]` / `x[:hi]` / `x[lo:]` (`hi = none`: up to the end). On strings positions count
+characters where Go counts bytes: a translated function must obtain its positions from an operation
+that counts the same way (e.g. an index-of oracle defined on characters), as noted at the target. -/
+class Slice (α : Type) where
+  slice : α → Int → Option Int → α
+
+instance {β : Type} : Slice (List β) where
+  slice xs lo hi := ((match hi with | some h => xs.take h.toNat | none => xs)).drop lo.toNat
+
+instance : Slice String where
+  slice s lo hi := String.ofList (((match hi with | some h => s.toList.take h.toNat | none => s.toList)).drop lo.toNat)
+
+def slice {α : Type} [Slice α] (x : α) (lo : Int) (hi : Option Int) : α := Slice.slice x lo hi
+
 /-! ### `Id` computations are plain values -/
 theorem idPure {α : Type} (a : α) : (pure a : Id α) = a := rfl
 theorem idBind {α β : Type} (x : Id α) (f : α → Id β) : x >>= f = f x := rfl
